@@ -1,0 +1,117 @@
+//go:build verif
+
+package client
+
+import (
+	"context"
+	"time"
+
+	"perun.network/go-perun/channel"
+	"perun.network/go-perun/wallet"
+	"perun.network/go-perun/wire"
+)
+
+// Accessors for the verification harness (properties C07 and C12). Nothing in
+// this file changes the behaviour of the client: the request handlers are the
+// unexported ones that Client.Handle dispatches to, called synchronously so
+// that a panic can be recovered and a handler that never returns can be told
+// from one that does.
+
+// VerifHandleChannelUpdate is handleChannelUpdate, the handler that
+// Client.Handle starts for ChannelUpdateMsg, VirtualChannelFundingProposalMsg
+// and VirtualChannelSettlementProposalMsg.
+func (c *Client) VerifHandleChannelUpdate(uh UpdateHandler, p map[wallet.BackendID]wire.Address, m ChannelUpdateProposal) {
+	c.handleChannelUpdate(uh, p, m)
+}
+
+// VerifHandleSyncMsg is handleSyncMsg, the handler that Client.Handle starts
+// for ChannelSyncMsg.
+func (c *Client) VerifHandleSyncMsg(p map[wallet.BackendID]wire.Address, m *ChannelSyncMsg) {
+	c.handleSyncMsg(p, m)
+}
+
+// VerifSetSyncReplyTimeout sets how long handleSyncMsg waits for the machine
+// mutex and returns the previous value.
+func VerifSetSyncReplyTimeout(d time.Duration) time.Duration {
+	old := syncReplyTimeout
+	syncReplyTimeout = d
+	return old
+}
+
+// VerifRestoreChannel creates a channel controller from restored channel data
+// (like restorePeerChannels does) and registers it with the client.
+func (c *Client) VerifRestoreChannel(s channel.Source, parent *Channel, peers []map[wallet.BackendID]wire.Address) (*Channel, error) {
+	ch, err := c.channelFromSource(s, parent, peers)
+	if err != nil {
+		return nil, err
+	}
+	c.channels.Put(ch.ID(), ch)
+	return ch, nil
+}
+
+// VerifSnapshot reads phase, staging and current transaction of the channel
+// machine without taking the machine mutex (the harness calls it only while no
+// handler is running, or to look at a channel whose handler is stuck).
+func (c *Channel) VerifSnapshot() (channel.Phase, channel.Transaction, channel.Transaction) {
+	return c.machine.Phase(), c.machine.StagingTX().Clone(), c.machine.CurrentTX().Clone()
+}
+
+// VerifMachineMutexFree reports whether the machine mutex could be taken
+// right now (and releases it again).
+func (c *Channel) VerifMachineMutexFree() bool {
+	if !c.machMtx.TryLock() {
+		return false
+	}
+	c.machMtx.Unlock()
+	return true
+}
+
+// VerifLockMachine takes the machine mutex like a running local operation
+// (Channel.Update waiting for the peer's answer) does.
+func (c *Channel) VerifLockMachine() { c.machMtx.Lock() }
+
+// VerifUnlockMachine releases it; it panics, like the deferred Unlock of the
+// local operation would, if somebody else released it in between.
+func (c *Channel) VerifUnlockMachine() { c.machMtx.Unlock() }
+
+// VerifRegisterSubChannelFunding registers the update interceptor that
+// completeCPP registers at the parent when a sub-channel proposal was accepted
+// (bals: the initial balances of the sub-channel).
+func (c *Channel) VerifRegisterSubChannelFunding(id channel.ID, bals channel.Balances) {
+	c.registerSubChannelFunding(id, bals)
+}
+
+// VerifRegisterSubChannelSettlement registers the update interceptor that
+// acceptUpdate registers at the parent when the final state of a sub-channel
+// was accepted (bals: the final balances of the sub-channel).
+func (c *Channel) VerifRegisterSubChannelSettlement(id channel.ID, bals channel.Balances) {
+	c.registerSubChannelSettlement(id, bals)
+}
+
+// VerifAwaitSubChannelFunding is awaitSubChannelFunding.
+func (c *Channel) VerifAwaitSubChannelFunding(ctx context.Context, id channel.ID) error {
+	return c.awaitSubChannelFunding(ctx, id)
+}
+
+// VerifAwaitSubChannelWithdrawal is awaitSubChannelWithdrawal.
+func (c *Channel) VerifAwaitSubChannelWithdrawal(ctx context.Context, id channel.ID) error {
+	return c.awaitSubChannelWithdrawal(ctx, id)
+}
+
+// VerifValidateVirtualChannelFundingProposal is
+// validateVirtualChannelFundingProposal (the caller holds no lock: use it on
+// quiescent channels only).
+func (c *Client) VerifValidateVirtualChannelFundingProposal(ch *Channel, prop *VirtualChannelFundingProposalMsg) error {
+	return c.validateVirtualChannelFundingProposal(ch, prop)
+}
+
+// VerifValidateVirtualChannelSettlementProposal is
+// validateVirtualChannelSettlementProposal.
+func (c *Client) VerifValidateVirtualChannelSettlementProposal(ch *Channel, prop *VirtualChannelSettlementProposalMsg) error {
+	return c.validateVirtualChannelSettlementProposal(ch, prop)
+}
+
+// VerifTransformBalances is transformBalances.
+func VerifTransformBalances(b channel.Balances, numParts int, indexMap []channel.Index) channel.Balances {
+	return transformBalances(b, numParts, indexMap)
+}
